@@ -1,6 +1,7 @@
 import Drx.Vwsc
 import Drx.VwscSpec
 import Drx.Score
+import Drx.ScoreSteps
 import Drx.Drv.Util
 namespace Drx.Drv.Score
 open Drx Drx.Drv Drx.Vwsc Drx.Vwsc.Spec
@@ -124,6 +125,24 @@ def run : List String → Option String
     -- right-hand side of C08.decode_is_fold: the fields of each successive channel state
     let lay ← parseLayout lay; let cc ← parseNat cc; let recs ← parseRecs recs
     some (rJ framesJ (expectedFrames lay (zeros (cc * lay.frameSize)) recs))
+  | ["stepsum", h] => do
+    -- C10: total loop rounds (first body line of every for/while) of vwsc_to_score(parse_vwsc_file_data(d)), i.e. of
+    -- vwsc.parse_vwsc_data + cparser.VwscChannelParser.parse_vwsc_channels + vwsc.vwsc_to_score; exact also when the call raises
+    let b ← bytesOfHex h
+    some (toString (Score.pipelineRounds b))
+  | ["work", h] => do
+    -- the same, itemised (data block located by parse_vwsc_file_data; zeros when that already fails)
+    let b ← bytesOfHex h
+    match locateData b with
+    | .error _ => some (J.str "error".toList).render
+    | .ok data =>
+      let (w, alloc, cc) := vwscWork data
+      let sw : Option Score.ScoreWork := match parseVwsc data with | .ok fr => some (Score.toScoreWork fr) | .error _ => none
+      some (J.obj ([("records", .nat w.records), ("deltas", .nat w.deltas), ("copied", .nat w.copied), ("parses", .nat w.parses),
+                    ("sprites", .nat w.sprites), ("alloc", .nat alloc), ("channels", .nat cc), ("datalen", .nat data.length)] ++
+            match sw with
+            | some s => [("init", .nat s.init), ("pass1", .nat s.pass1), ("pass2", .nat s.pass2), ("cells", .nat s.cells)]
+            | none => [])).render
   | ["toscore", t] => do
     -- C09: vwsc_to_score on a frame table
     let fs ← parseFrames t
